@@ -148,6 +148,30 @@ func planC14(tier string, root *simcore.RNG) *plan {
 			add(b, fmt.Sprintf("long-line:%d:0", i), "crlf")
 		}
 	}
+	// E11: well-formed files over a sweep of triangle counts (every small count;
+	// powers of two, round decimal numbers and their neighbours up to 2^16)
+	{
+		var counts []int
+		top := 300
+		if thorough {
+			top = 4200
+		}
+		for n := 0; n <= top; n++ {
+			counts = append(counts, n)
+		}
+		for _, c := range []int{512, 1000, 1024, 2000, 2048, 3000, 3072, 4096, 5000, 8192, 10000, 16384, 32768, 50000, 65536} {
+			counts = append(counts, c-1, c, c+1)
+		}
+		for _, n := range counts {
+			add(bs("bin", n))
+			if n <= 300 || n%7 == 0 || n&(n-1) == 0 || n%1000 == 0 {
+				add(bs("stream", n))
+			}
+			if n <= 120 || (n <= 5001 && (n&(n-1) == 0 || n%1000 == 0)) {
+				add(bs("ascii", n))
+			}
+		}
+	}
 	// E7: what the path is
 	for _, b := range []string{bs("bin", 2), bs("ascii", 2), bs("bin", 0)} {
 		for _, op := range []string{"as-symlink", "as-directory", "as-devnull", "as-devzero", "as-missing", "odd-name"} {
@@ -269,7 +293,7 @@ func planC14(tier string, root *simcore.RNG) *plan {
 	}
 	pl.exhaust = true
 	pl.extra = map[string]any{"enumerated_cases": enumerated, "sampled_multi_fault_cases": nsample, "arbitrary_byte_and_token_soup_cases": 2 * nrand,
-		"exhaustive_subspace": "every truncation offset of 9 small binary/streamed/ASCII files; every bit of the count field of 3 binary files (alone, padded to match, +50 bytes); every flush-index crash image of the streaming writer for 200 and 1000 triangles; every line x {drop, dup, half-written at 6 columns, stray token, 13 malformed numbers} of 3 ASCII files; every single/pair sector fault of a 5-sector binary and a 4-sector ASCII file. Multi-fault sequences and the shipped files are sampled."}
+		"exhaustive_subspace": "every truncation offset of 9 small binary/streamed/ASCII files; every bit of the count field of 3 binary files (alone, padded to match, +50 bytes); every flush-index crash image of the streaming writer for 200 and 1000 triangles; every line x {drop, dup, half-written at 6 columns, stray token, 13 malformed numbers} of 3 ASCII files; every single/pair sector fault of a 5-sector binary and a 4-sector ASCII file; undamaged binary/streamed/ASCII files for every triangle count 0..300 (thorough 0..4200) and for powers of two and round decimal counts +-1 up to 65537. Multi-fault sequences and the shipped files are sampled."}
 	pl.rule = "case = base file (SaveSTL / ToSTL / harness-written ASCII / crash image of the streaming writer / shipped files / arbitrary bytes / random STL-token soup) + 0..4 storage-fault operators (truncate at byte n, zeroed / duplicated / swapped / PRNG-filled 512-byte sector, bit flip, count rewrite, trailing zeros / garbage / second copy, padding that makes 84+50*count match again, dropped / duplicated / half-written line, stray token, malformed number, CRLF) loaded with render.LoadSTL and, for a quarter of the cases, obj.ImportSTL. Oracle: returns a mesh or an error; a recovered panic, no return within 20 s, or TotalAlloc growth above 1 MiB + 64 x file size is a violation. Non-trivial = at least one operator changed the file; distinct = (entry point, base, operators)."
 	pl.assume = []string{
 		"the claim is totality over the storage-fault closure of valid files (what a disk produces), not over adversarial byte strings; arbitrary bytes are reached only through PRNG-filled sectors and appended garbage",
